@@ -19,9 +19,41 @@ os.makedirs(lab, exist_ok=True)
 sh("rsync -a --delete --exclude target --exclude .git /repo/ %s/repo/" % lab)
 sh("rsync -a --exclude target /verif/harness/ %s/harness/" % lab)
 sh("sed -i 's#path = \"/repo\"#path = \"%s/repo\"#' %s/harness/Cargo.toml" % (lab, lab))
+def apply_by_merge(patch):
+    """The patch was written against an older commit of /repo (before later hook / fix commits): apply it to that
+    commit's version of each touched file and 3-way merge the result into the lab copy (git merge-file)."""
+    import re, tempfile
+    files = re.findall(r"^\+\+\+ b/(\S+)", open(patch).read(), re.M)
+    rc, revs = sh("git -C /repo log --format=%H -n 12")
+    for rev in revs.split():
+        tmp = tempfile.mkdtemp(prefix="labmerge")
+        ok = True
+        for f in files:
+            os.makedirs(os.path.dirname(os.path.join(tmp, "base", f)), exist_ok=True)
+            os.makedirs(os.path.dirname(os.path.join(tmp, "theirs", f)), exist_ok=True)
+            rc, _ = sh("git -C /repo show %s:%s > %s/base/%s && cp %s/base/%s %s/theirs/%s" % (rev, f, tmp, f, tmp, f, tmp, f))
+            ok = ok and rc == 0
+        if ok:
+            rc, out = sh("patch -p1 -s -d %s/theirs < %s" % (tmp, patch))
+            ok = rc == 0
+        if ok:
+            for f in files:
+                rc, out = sh("git merge-file %s/repo/%s %s/base/%s %s/theirs/%s" % (lab, f, tmp, f, tmp, f))
+                if rc != 0:
+                    # both sides inserted lines at the same place (a hook line and the change): keep both
+                    sh("cp /repo/%s %s/repo/%s" % (f, lab, f))
+                    rc, out = sh("git merge-file --union %s/repo/%s %s/base/%s %s/theirs/%s" % (lab, f, tmp, f, tmp, f))
+                ok = ok and rc == 0
+        sh("rm -rf %s" % tmp)
+        if ok:
+            return True
+        sh("rsync -a --delete --exclude target --exclude .git /repo/ %s/repo/" % lab)
+    return False
+
+
 if patch != "-":
-    rc, out = sh("git apply --unsafe-paths --directory=%s/repo %s || patch -p1 -d %s/repo < %s" % (lab, os.path.abspath(patch), lab, os.path.abspath(patch)))
-    if rc != 0:
+    rc, out = sh("git apply --unsafe-paths --directory=%s/repo %s" % (lab, os.path.abspath(patch)))
+    if rc != 0 and not apply_by_merge(os.path.abspath(patch)):
         print("patch failed:", out); sys.exit(2)
 env = dict(os.environ, VERIF_LAB=lab, VERIF_SEED=seed)
 res = {}
